@@ -47,6 +47,7 @@ def run(ck, ctx):
         _taint_rules(ck, prog, cfg)
         _r157(ck, raw, cfg)
         _r155(ck, prog, cfg)
+        prefix_rule(ck, prog, cfg, "R15.5")
     _r156(ck, ctx)
 
 
@@ -567,3 +568,74 @@ def _r157(ck, prog, cfg):
                  "`:-9223372036854775808`), which the encoders emit, is rejected as out of range" % (f.short, rt), f.where(neg),
                  detail="no negate-after-accumulate")
     ck.extra.setdefault("derived_sources", sorted(derived_sources(prog)))
+
+
+def prefix_rule(ck, prog, cfg, rid):
+    """Between the point where a frame's total size is known and the completeness test nothing may reject the input: in the length-
+    prefixed parsers every protocol-error exit (an Err other than the "Incomplete" sentinel) that is reachable after the total size
+    was computed must lie behind the `complete` edge of the comparison of that size with input.len().  Otherwise a proper prefix of
+    a valid frame (a read that ends inside the frame) is answered with a protocol error."""
+    C = "redis::resp_optimized::RespCodec::"
+    n = 0
+    for name in ("parse_bulk_string",):
+        f = prog.one(C + name)
+        # the completeness guard: comparison of a tainted total against input.len()
+        guards_ = []
+        for sb in sorted(f.reachable_blocks()):
+            si = switch_info(f, sb)
+            if not (si and si["kind"] == "val" and si["src"] is not None and si["src"].kind == "rv" and si["src"].rv["k"] == "bin"):
+                continue
+            r = si["src"].rv
+            if r["op"] not in ("Gt", "Lt", "Ge", "Le"):
+                continue
+            a, b = src_of_operand(f, r["a"], through_calls=(r"Try>::branch$",)), src_of_operand(f, r["b"], through_calls=(r"Try>::branch$",))
+            for x, y, xo in ((a, b, r["a"]), (b, a, r["b"])):
+                if y.kind == "call" and is_callee(y.term, *LEN) and _derives_from_plus_two(prog, f, r, x) or \
+                        (y.kind == "call" and is_callee(y.term, *LEN) and x.kind == "rv" and x.rv["k"] == "bin" and x.rv["op"].startswith("Add")):
+                    # incomplete edge: total > len  (Gt true / Le false ...)
+                    tt, ft = lib2.bool_edges(f, sb)
+                    total_is_a = x is a
+                    op = r["op"]
+                    incomplete_true = (op in ("Gt", "Ge") and total_is_a) or (op in ("Lt", "Le") and not total_is_a)
+                    guards_.append((sb, ft if incomplete_true else tt, xo, x))
+        ck.check(len(guards_) >= 1, rid, "%s:completeness-guard%s" % (name, _tag(cfg)), "no completeness test (total size vs input.len()) found", f.where())
+        if not guards_:
+            continue
+        gsb, complete_t, total_op, total_src = guards_[0]
+        tl = op_place(total_op)
+        # where the total becomes known: the definition(s) of the user variable behind the compared temporary
+        # follow plain copies from the compared temporary to the first named local (`total`): that is where the size becomes known
+        tlocal = tl["l"] if tl is not None and "p" not in tl else None
+        hops = 0
+        while tlocal is not None and f.name_of_local(tlocal) is None and hops < 6:
+            ds = f.defs().get(tlocal, [])
+            nxt = None
+            if len(ds) == 1 and ds[0][2] == "assign" and ds[0][3]["k"] == "use" and "c" not in ds[0][3]["a"]:
+                q = op_place(ds[0][3]["a"])
+                if q is not None and "p" not in q:
+                    nxt = q["l"]
+            if nxt is None:
+                break
+            tlocal = nxt
+            hops += 1
+        tdefs = [db for (db, di, kind, payload) in f.defs().get(tlocal, [])] if tlocal is not None else []
+
+        errs = []
+        for b, t in f.calls():
+            if is_callee(t, r"ToString>::to_string$") and t["args"]:
+                txt = _lit(f, t["args"][0])
+                if txt and txt != '"Incomplete"':
+                    errs.append((b, t, txt))
+        for b, i, st in f.stmts():
+            pass
+        for b, t, txt in errs:
+            after_total = any(f.dominates(db, b) for db in tdefs) if tdefs else False
+            if not after_total:
+                continue
+            n += 1
+            ok = b == complete_t or f.dominates(complete_t, b)
+            ck.check(ok, rid, "%s:error-before-complete:%s%s" % (name, re.sub(r"[^A-Za-z]+", "-", txt)[:30], _tag(cfg)),
+                     "%s rejects the input with %s once the frame size is known but before the frame is known to be complete: a read that ends "
+                     "inside the frame (any fragmentation of a valid stream) is answered with a protocol error instead of waiting for the rest"
+                     % (name, txt), f.where(t["ln"]), detail="protocol errors only behind the completeness test")
+        ck.ok(rid, "%s:no-rejection-before-complete%s" % (name, _tag(cfg)), "%d late error exits, all behind the completeness test" % n)
